@@ -36,6 +36,9 @@ func costModels() map[string]analyzer.CostModel {
 		"weighted": analyzer.NewWeightedCostModel(1.0, 1.0, 0.8, analyzer.NewPythonCostModel()),
 		// the configuration the clone detector really uses (boilerplate-aware)
 		"python_bp": analyzer.NewPythonCostModelWithBoilerplateConfig(false, false, true, 0.1),
+		// asymmetric weights (insert != delete): d(T1,T2) and d(T2,T1) are different minima, so the argument order matters
+		"weighted_asym":  analyzer.NewWeightedCostModel(2.0, 1.5, 0.5, analyzer.NewDefaultCostModel()),
+		"weighted_asym2": analyzer.NewWeightedCostModel(0.5, 3.0, 1.0, analyzer.NewPythonCostModel()),
 	}
 }
 
@@ -57,6 +60,31 @@ func init() {
 			d11 := a.ComputeDistance(t1, t1)
 			s12 := a.ComputeSimilarity(t1, t2)
 			s11 := a.ComputeSimilarity(t1, t1)
+			// a SESSION on the same objects: compare an inner subtree of T1 on its own (against a fresh tree), then the whole pair again,
+			// then T1 against a fresh copy of itself; every call must give what a fresh analysis gives (no state may survive a call)
+			dAgain, dCopy, dSub := d12, 0.0, -1.0
+			{
+				var sub *analyzer.TreeNode
+				var find func(n *analyzer.TreeNode, root bool)
+				find = func(n *analyzer.TreeNode, root bool) {
+					for _, c := range n.Children {
+						if len(c.Children) > 0 {
+							sub = c // the LAST non-leaf proper subtree in preorder
+						}
+						find(c, false)
+					}
+				}
+				find(t1, true)
+				if sub != nil {
+					p = 0
+					other := buildTree(in.T2, &p, &id)
+					dSub = a.ComputeDistance(sub, other)
+				}
+				dAgain = a.ComputeDistance(t1, t2)
+				p = 0
+				cp := buildTree(in.T1, &p, &id)
+				dCopy = a.ComputeDistance(t1, cp)
+			}
 			del, ins := []float64{}, []float64{}
 			ren := [][]float64{}
 			for _, l := range in.Labels {
@@ -69,7 +97,7 @@ func init() {
 				}
 				ren = append(ren, row)
 			}
-			out[name] = map[string]any{"d12": d12, "d21": d21, "d11": d11, "s12": s12, "s11": s11,
+			out[name] = map[string]any{"d12_again": dAgain, "d_copy": dCopy, "d_sub": dSub, "d12": d12, "d21": d21, "d11": d11, "s12": s12, "s11": s11,
 				"n1": t1.Size(), "n2": t2.Size(), "del": del, "ins": ins, "ren": ren}
 		}
 		return out, nil
